@@ -526,6 +526,9 @@ Out(s) == [un |-> FALSE, s |-> s]
 RECURSIVE Rep(_, _)
 Rep(s, n) == IF n = 0 THEN <<>> ELSE s \o Rep(s, n - 1)
 
+\* attributes of dtml-in that do not change what an unbatched loop over a plain list renders
+InertInArgs == {"skip_unauthorized"}
+
 RECURSIVE RL(_, _)
 RECURSIVE RL1(_, _)
 RECURSIVE RLIf(_, _, _, _)
@@ -558,7 +561,7 @@ RL1(it, env) ==
       [] it.t = "call" -> IF it.ref.k = "name" /\ Defined(env, it.ref.n) THEN Out(<<>>) ELSE Un
       [] it.t = "comment" -> Out(<<>>)
       [] it.t = "in" -> IF it.ref.k = "name" /\ Defined(env, it.ref.n) /\ ValOf(env, it.ref.n).k = "list"
-                           /\ ~it.batch /\ it.args = <<>>
+                           /\ ~it.batch /\ (\A i \in 1..Len(it.args) : it.args[i].k \in InertInArgs)
                         THEN LET n == ValOf(env, it.ref.n).n IN
                              IF n = 0 THEN (IF it.else = <<>> THEN Out(<<>>) ELSE RL(it.else[1], env))
                              ELSE LET b == RL(it.body, env) IN IF b.un THEN Un ELSE Out(Rep(b.s, n))
